@@ -133,11 +133,12 @@ func evalCase(c *Case, drv *lib.Driver, guard bool) *caseResult {
 				Input: c, Model: fo[len(fo)-1], Impl: got})
 		}
 	}
-	if c.DBFault != "" && cr.obs.DBFaultFired && !headEq(cr.obs.FinalHead, lastHeadBeforeFault(cr)) {
+	if c.DBFault != "" && cr.obs.DBFaultFired && !headEq(headAfterMark(cr, cr.obs.DBFaultMark), lastHeadBeforeFault(cr)) {
 		cr.findings = append(cr.findings, finding{sig: "l1head-changed-by-a-failed-database-operation",
 			what: "the stored head changed although the read / write of the stored head failed"})
 	}
-	if cr.obs.EndedEarly && !c.ChainIDMismatch && !cr.obs.DBFaultFired {
+	liveFault := cr.obs.DBFaultFired && cr.obs.DBFaultMark >= 0 && cr.obs.DBFaultMark < len(cr.obs.Marks) && !cr.obs.Marks[cr.obs.DBFaultMark].PreWatch
+	if cr.obs.EndedEarly && !c.ChainIDMismatch && !liveFault {
 		cr.mismatches = append(cr.mismatches, lib.Mismatch{Sig: "run-returned-before-cancel", Input: c, Impl: cr.obs.RunErr})
 	}
 	if c.ChainIDMismatch && !headEq(cr.obs.FinalHead, c.Stored) {
@@ -181,12 +182,17 @@ func evalCase(c *Case, drv *lib.Driver, guard bool) *caseResult {
 
 // lastHeadBeforeFault: the stored head sampled at the start of the poll whose database access failed.
 func lastHeadBeforeFault(cr *caseResult) *HeadJ {
-	for i := len(cr.obs.Marks) - 1; i >= 0; i-- {
-		if cr.obs.Marks[i].Kind == "tick" {
-			return cr.obs.Marks[i].HeadBefore
-		}
+	if i := cr.obs.DBFaultMark; i >= 0 && i < len(cr.obs.Marks) {
+		return cr.obs.Marks[i].HeadBefore
 	}
 	return cr.c.Stored
+}
+
+func headAfterMark(cr *caseResult, i int) *HeadJ {
+	if i+1 < len(cr.obs.Marks) {
+		return cr.obs.Marks[i+1].HeadBefore
+	}
+	return cr.obs.FinalHead
 }
 
 func suLine(l Log) string {
